@@ -37,3 +37,38 @@ Proof.
   rewrite E, R2 in R1. inversion R1 as [[He Hf]]. split; [|reflexivity].
   destruct sig1 as [[h1 s1]|], sig2 as [[h2 s2]|]; cbn [mk_env] in He; congruence.
 Qed.
+
+(* ---------- legacy v1: the payload the signature covers ---------- *)
+Lemma drop_field_ok k fs : forallb field_ok fs = true -> forallb field_ok (drop_field k fs) = true.
+Proof.
+  intro H. apply forallb_forall. intros f Hf. unfold drop_field in Hf. apply filter_In in Hf as [Hf _].
+  rewrite forallb_forall in H. apply H. exact Hf.
+Qed.
+
+Lemma drop_field_spec k fs f : In f (drop_field k fs) <-> In f fs /\ fst f <> k.
+Proof.
+  unfold drop_field. rewrite filter_In. split; intros [H1 H2]; split; try exact H1.
+  - apply negb_true_iff in H2. apply N.eqb_neq in H2. exact H2.
+  - apply negb_true_iff. apply N.eqb_neq. exact H2.
+Qed.
+
+Lemma drop_field_absent k fs : (forall f, In f fs -> fst f <> k) -> drop_field k fs = fs.
+Proof.
+  intro H. unfold drop_field. induction fs as [|f fs IH]; [reflexivity|]. cbn [filter].
+  replace (negb (fst f =? k)%N) with true
+    by (symmetry; apply negb_true_iff; apply N.eqb_neq; apply H; left; reflexivity).
+  f_equal. apply IH. intros g Hg. apply H. right. exact Hg.
+Qed.
+
+(* for every canonical v1 message: the unsigned payload is the encoding of the same fields without the
+   signature field, it parses back to exactly those fields, and it is the message itself when unsigned *)
+Lemma v1_unsigned_payload_spec fs : forallb field_ok fs = true ->
+  v1_unsigned_payload (ser_fields fs) = WOk (ser_fields (drop_field V1_SIGNATURE_FIELD fs)) /\
+  wire_parse (ser_fields (drop_field V1_SIGNATURE_FIELD fs)) = WOk (drop_field V1_SIGNATURE_FIELD fs) /\
+  ((forall f, In f fs -> fst f <> V1_SIGNATURE_FIELD) ->
+     v1_unsigned_payload (ser_fields fs) = WOk (ser_fields fs)).
+Proof.
+  intro H. unfold v1_unsigned_payload. rewrite wire_roundtrip by exact H. split; [reflexivity|]. split.
+  - apply wire_roundtrip. apply drop_field_ok. exact H.
+  - intro Ha. rewrite drop_field_absent by exact Ha. reflexivity.
+Qed.
